@@ -8,6 +8,7 @@ import (
 	"os/exec"
 	"path/filepath"
 	"strings"
+	"time"
 
 	"verif/internal/conc"
 	h "verif/internal/harness"
@@ -25,12 +26,28 @@ func binDir() string {
 	return filepath.Join(h.Root, "bin")
 }
 
+// toolTimeout bounds one run of a tool: the race pass of one pair takes seconds (a stall of minutes is a deadlock
+// between the free-running goroutines), one exhaustive exploration may legitimately take many minutes in the thorough tier.
+var toolTimeout = map[string]time.Duration{"vrace": 3 * time.Minute, "vschedcheck": 50 * time.Minute}
+
 func runTool(name string, env []string, args ...string) (stdout, stderr string, code int) {
 	cmd := exec.Command(filepath.Join(binDir(), name), args...)
 	var o, e bytes.Buffer
 	cmd.Stdout, cmd.Stderr = &o, &e
 	cmd.Env = append(os.Environ(), env...)
-	err := cmd.Run()
+	if err := cmd.Start(); err != nil {
+		return "", err.Error(), 2
+	}
+	done := make(chan error, 1)
+	go func() { done <- cmd.Wait() }()
+	var err error
+	select {
+	case err = <-done:
+	case <-time.After(toolTimeout[name]):
+		cmd.Process.Kill()
+		<-done
+		return o.String(), fmt.Sprintf("%s made no end within %v (killed); stderr: %s", name, toolTimeout[name], e.String()), 99
+	}
 	code = 0
 	if err != nil {
 		code = 2
@@ -126,6 +143,9 @@ func racePair(c *h.Ctx, kind string, idx int, names []string, reps int) {
 	case 66:
 		c.Fail("data-race:"+names[0]+"|"+names[len(names)-1], in, trunc(errs, 1800))
 		c.Case(0, true, "race")
+	case 99:
+		c.Fail("process-hang:"+names[0]+"|"+names[len(names)-1], in, trunc(errs, 900))
+		c.Case(0, true, "hang")
 	case 1:
 		c.Fail("concurrent-result-differs:"+names[0]+"|"+names[len(names)-1], in, trunc(out, 900))
 		c.Case(0, true, "wrong-result")
@@ -138,7 +158,8 @@ func racePair(c *h.Ctx, kind string, idx int, names []string, reps int) {
 func init() {
 	h.Register(&h.Check{
 		ID:             "C17",
-		MemLimitGiB:    -1, // the -race children need their shadow mapping
+		WatchdogSec:    3600, // one case is a whole exploration by an external tool, which has its own time limit (toolTimeout)
+		MemLimitGiB:    -1,   // the -race children need their shadow mapping
 		SchedulerStyle: true,
 		Rule:           "for every unordered pair of the 19-operation alphabet on shared objects (thorough: also triples): (1) stateless DFS over all interleavings at statement granularity with iterative preemption bounding on the instrumented real code (about 1590 scheduling points; map iteration made deterministic by the instrumenter; sync replaced by a scheduler-aware stand-in so that lock operations are scheduling points with enabledness and deadlock is detected; package-level variables re-initialised before every execution; replay determinism asserted), each call's result compared with the call run alone, shared objects and package-level variables digested at every point of the single-thread runs and at the end of every schedule; (2) free-running -race pass of the same bodies under 3 launch patterns x 20 repetitions; states = schedules explored, transitions = scheduling steps executed",
 		Assumptions:    []string{"statement-granularity interleavings; sub-statement tearing and memory-model effects are delegated to the race detector pass", "map iteration is fixed to sorted-key order in the scheduler pass (a legal order); the random orders are exercised by the free-running pass"},
